@@ -34,6 +34,9 @@
  *                  carries the copies made by the device and the state of every copy after every task
  *            par : <batch> tasks are inserted between two waits; only schedule-independent
  *                  observations are printed
+ *            ptg : like seq, but no DTD: the harness builds the task and the device task itself and calls the real
+ *                  parsec_device_kernel_scheduler; data_in of a flow = output copy of the last writer of the tile
+ *                  (as PTG-generated code forwards it), so device copies are inputs (device tasks only)
  *     ngpu   devices the tasks may name (1..2), cap = device memory in tiles,
  *     delay  max number of extra polls an event needs, cpu_direct = 1: CPU tasks are inserted with
  *            parsec_dtd_insert_task (the body is the hook), 0: through a task class + add_chore
@@ -80,7 +83,7 @@
 #define TILE_UNIT 64
 
 typedef struct { int place; int nacc; int d[MAXF]; char m[MAXF]; int po[MAXF]; int wait_before; } task_t;
-typedef struct { int seq, ngpu, cap, ndata, delay, batch, cpu_direct, ntasks; task_t t[MAXT]; } case_t;
+typedef struct { int seq, ptg, ngpu, cap, ndata, delay, batch, cpu_direct, ntasks; task_t t[MAXT]; } case_t;
 static case_t C;
 
 static uint32_t Fval(int tid, const int32_t *in, int n) {
@@ -139,16 +142,18 @@ static int dev_of_ptr(const void *p) {       /* 0 = host, k+1 = mock device k */
 #define POISON ((int32_t)-11111)
 /* ---- who owns which tile of the device memory (to poison memory that is handed out again) ---- */
 static parsec_dtd_tile_t *g_tile[MAXD];
+static parsec_data_t *g_data[MAXD];            /* the parsec_data_t of every tile of the case */
 static int case_active;
 static struct { void *copy; int datum; } slot_owner[MAXG][64];
+static parsec_data_copy_t *cur_copy[MAXD]; static int cur_dev[MAXD];      /* ptg mode: output copy of the last writer */
 static int devidx(int g) { return mock[g]->super.super.device_index; }
 static void scan_slots(void) {
     if (!case_active) return;
     for (int g = 0; g < n_mock; g++) {
         void *nowc[64] = {0}; int nowd[64];
         for (int d = 0; d < C.ndata; d++) {
-            if (!g_tile[d] || !g_tile[d]->data_copy) continue;
-            parsec_data_copy_t *c = g_tile[d]->data_copy->original->device_copies[devidx(g)];
+            if (!g_data[d]) continue;
+            parsec_data_copy_t *c = g_data[d]->device_copies[devidx(g)];
             if (!c || !c->device_private) continue;
             long sl = ((char *)c->device_private - mock[g]->base) / TILE_UNIT;
             if (sl < 0 || sl >= 64) continue;
@@ -157,6 +162,12 @@ static void scan_slots(void) {
         for (int sl = 0; sl < mock_cap && sl < 64; sl++) {
             if (nowc[sl] && (nowc[sl] != slot_owner[g][sl].copy || nowd[sl] != slot_owner[g][sl].datum))
                 *(volatile int32_t *)(mock[g]->base + (size_t)sl * TILE_UNIT) = POISON;
+            /* ptg mode: the copy that was the current output of its tile left this slot (evicted): consumers
+               will read the tile from the collection */
+            if (C.ptg && slot_owner[g][sl].copy && (nowc[sl] != slot_owner[g][sl].copy || nowd[sl] != slot_owner[g][sl].datum)) {
+                int od = slot_owner[g][sl].datum;
+                if (od >= 0 && cur_dev[od] == g + 1 && cur_copy[od] == slot_owner[g][sl].copy) { cur_dev[od] = 0; cur_copy[od] = g_data[od] ? g_data[od]->device_copies[0] : NULL; }
+            }
             slot_owner[g][sl].copy = nowc[sl]; slot_owner[g][sl].datum = nowc[sl] ? nowd[sl] : -1;
         }
     }
@@ -164,13 +175,33 @@ static void scan_slots(void) {
 static int datum_of_ptr(const void *p, int *dev) {
     *dev = dev_of_ptr(p);
     for (int d = 0; d < C.ndata; d++) {
-        if (!g_tile[d] || !g_tile[d]->data_copy) continue;
-        parsec_data_copy_t *c = g_tile[d]->data_copy->original->device_copies[*dev ? devidx(*dev - 1) : 0];
+        if (!g_data[d]) continue;
+        parsec_data_copy_t *c = g_data[d]->device_copies[*dev ? devidx(*dev - 1) : 0];
         if (c && c->device_private == p) return d;
     }
     return -1;
 }
 
+static void dbg_state(void);
+/* placement in par mode: parsec_select_best_device follows data->preferred_device at the time a task is selected,
+ * i.e. after its predecessors completed; so the body of a task sets, for each of its tiles, the device of the next
+ * task of the sequence that names the tile (insert_one only advises tiles without an earlier user since the last wait) */
+static int batch_start;
+static void advise_tile(int d, int place) {
+    if (place > 0 && g_data[d])
+        parsec_advise_data_on_device(g_data[d], mock[place - 1]->super.super.device_index,
+                                     PARSEC_DEV_DATA_ADVICE_PREFERRED_DEVICE);
+}
+static void after_run(int tid) {
+    if (C.seq) return;
+    const task_t *t = &C.t[tid];
+    for (int j = 0; j < t->nacc; j++)
+        for (int k = tid + 1; k < C.ntasks; k++) {
+            int hit = 0;
+            for (int q = 0; q < C.t[k].nacc; q++) if (C.t[k].d[q] == t->d[j]) hit = 1;
+            if (hit) { advise_tile(t->d[j], C.t[k].place); break; }
+        }
+}
 static void run_kernel(mop_t *o) {
     const task_t *t = &C.t[o->tid];
     int32_t in[MAXF]; int nin = 0;
@@ -184,6 +215,8 @@ static void run_kernel(mop_t *o) {
         if (t->m[j] != 'r' && o->p[j]) *(volatile int32_t *)o->p[j] = (int32_t)v;
     obs_dev[o->tid] = o->dev + 1;
     parsec_atomic_fetch_inc_int32(&runs[o->tid]);
+    if (getenv("H_GPU_DEBUG")) { fprintf(stderr, "[dbg] kernel T%d on dev %d:", o->tid, o->dev + 1); dbg_state(); }
+    after_run(o->tid);
 }
 static void stream_drain(mstream_t *s, int upto) {
     while (s->qh != upto) {
@@ -325,6 +358,7 @@ static int cpu_body(parsec_execution_stream_t *es, parsec_task_t *this_task) {
         if (t->m[j] != 'r' && p[j]) *(volatile int32_t *)p[j] = (int32_t)v;
     obs_dev[tid] = 0;
     parsec_atomic_fetch_inc_int32(&runs[tid]);
+    after_run(tid);
     return PARSEC_HOOK_RETURN_DONE;
 }
 /* the "kernel launch" of a device task: captures the device pointers, enqueues the kernel on the stream */
@@ -373,9 +407,13 @@ static void insert_one(int tid) {
     const task_t *t = &C.t[tid];
     int devt = t->place ? PARSEC_DEV_CUDA : PARSEC_DEV_CPU;
     if (t->place)
-        for (int j = 0; j < t->nacc; j++)
-            parsec_advise_data_on_device(g_tile[t->d[j]]->data_copy->original, mock[t->place - 1]->super.super.device_index,
-                                         PARSEC_DEV_DATA_ADVICE_PREFERRED_DEVICE);
+        for (int j = 0; j < t->nacc; j++) {
+            int earlier = 0;
+            if (!C.seq)
+                for (int k = batch_start; k < tid && !earlier; k++)
+                    for (int q = 0; q < C.t[k].nacc; q++) if (C.t[k].d[q] == t->d[j]) earlier = 1;
+            if (!earlier) advise_tile(t->d[j], t->place);
+        }
     if (0 == t->place && C.cpu_direct) {
         /* CPU task through parsec_dtd_insert_task (the body is the hook, no parsec_dtd_cpu_task_submit) */
 #define HEAD g_tp, cpu_body, 0, devt, "T", sizeof(int), &tid, PARSEC_VALUE
@@ -411,7 +449,8 @@ static int parse_case(const char *line, case_t *c) {
     *bar = 0;
     memset(c, 0, sizeof(*c));
     if (sscanf(l, "gpu %15s %d %d %d %d %d %d", mode, &c->ngpu, &c->cap, &c->ndata, &c->delay, &c->batch, &c->cpu_direct) != 7) return 0;
-    c->seq = !strcmp(mode, "seq");
+    c->ptg = !strcmp(mode, "ptg");
+    c->seq = !strcmp(mode, "seq") || c->ptg;
     if (c->ngpu < 1 || c->ngpu > MAXG || c->cap < 1 || c->cap > 64 || c->ndata < 1 || c->ndata > MAXD || c->delay < 0 || c->batch < 1) return 0;
     char *s = bar + 1;
     for (;;) {
@@ -441,13 +480,13 @@ static int parse_case(const char *line, case_t *c) {
 static char stch(int s) { return s == PARSEC_DATA_COHERENCY_INVALID ? 'I' : s == PARSEC_DATA_COHERENCY_OWNED ? 'O' :
                                  s == PARSEC_DATA_COHERENCY_EXCLUSIVE ? 'E' : s == PARSEC_DATA_COHERENCY_SHARED ? 'S' : '?'; }
 static int datum_of(parsec_data_t *o) {
-    for (int d = 0; d < C.ndata; d++) if (g_tile[d] && g_tile[d]->data_copy && g_tile[d]->data_copy->original == o) return d;
+    for (int d = 0; d < C.ndata; d++) if (g_data[d] == o) return d;
     return -1;
 }
 static void pval(FILE *out, int32_t v) { if (v == POISON) fprintf(out, "P"); else fprintf(out, "%d", (int)v); }
 static void dump_state(FILE *out) {
     for (int d = 0; d < C.ndata; d++) {
-        parsec_data_t *o = g_tile[d]->data_copy->original;
+        parsec_data_t *o = g_data[d];
         fprintf(out, " %d[o%d", d, (int)o->owner_device);
         for (uint32_t i = 0; i < parsec_nb_devices; i++) {
             parsec_data_copy_t *c = o->device_copies[i];
@@ -468,9 +507,71 @@ static void dump_state(FILE *out) {
     }
 }
 
+
+/* ---- "ptg" mode: the harness is the DSL.  A task is a hand-made parsec_task_t + parsec_gpu_dsl_task_t handed to the
+ * real parsec_device_kernel_scheduler; as in PTG-generated code the input copy of a flow (data_in) is the output copy of
+ * the last writer of the tile (the device copy when it did not push out, the host copy otherwise or when that device
+ * copy is not attached any more: the consumer then reads the tile from the collection).  Device tasks only. ---- */
+static parsec_taskpool_t ptg_tp;
+static parsec_hook_return_t ptg_release_task(parsec_execution_stream_t *es, parsec_task_t *t) { (void)es; (void)t; return PARSEC_HOOK_RETURN_DONE; }
+static int ptg_submit(parsec_device_gpu_module_t *gd, parsec_gpu_task_t *gt, parsec_gpu_exec_stream_t *gs) {
+    parsec_task_t *this_task = gt->ec;
+    int tid = this_task->locals[0].value;
+    scan_slots();
+    mop_t *o = stream_push((mstream_t *)gs);
+    o->kind = 1; o->tid = tid; o->dev = ((mock_t *)gd)->id;
+    for (int j = 0; j < C.t[tid].nacc; j++) o->p[j] = this_task->data[j].data_out ? this_task->data[j].data_out->device_private : NULL;
+    return PARSEC_HOOK_RETURN_DONE;
+}
+static int ptg_run_task(int tid) {
+    const task_t *t = &C.t[tid];
+    static parsec_flow_t flows[MAXF]; static parsec_task_class_t tc; static __parsec_chore_t chores[2];
+    if (t->place <= 0) return -1;
+    memset(&tc, 0, sizeof tc); memset(flows, 0, sizeof flows); memset(chores, 0, sizeof chores);
+    tc.name = "P"; tc.nb_flows = (uint8_t)t->nacc; tc.release_task = ptg_release_task;
+    chores[0].type = PARSEC_DEV_CUDA; chores[0].hook = (parsec_hook_t *)ptg_release_task; chores[1].type = PARSEC_DEV_NONE;
+    tc.incarnations = chores;
+    parsec_task_t *task = calloc(1, sizeof(parsec_task_t));
+    PARSEC_OBJ_CONSTRUCT(task, parsec_task_t);
+    task->task_class = &tc; task->taskpool = &ptg_tp; task->locals[0].value = tid;
+    task->selected_device = &mock[t->place - 1]->super.super; task->selected_chore = 0; task->load = 0;
+    parsec_gpu_task_t *gt = (parsec_gpu_task_t *)PARSEC_OBJ_NEW(parsec_gpu_dsl_task_t);
+    gt->ec = task; gt->submit = ptg_submit; gt->task_type = PARSEC_GPU_TASK_TYPE_KERNEL; gt->pushout = 0;
+    gt->nb_flows = (uint32_t)t->nacc; gt->stage_in = parsec_default_gpu_stage_in; gt->stage_out = parsec_default_gpu_stage_out;
+    for (int j = 0; j < t->nacc; j++) {
+        int d = t->d[j];
+        flows[j].name = "F"; flows[j].flow_index = (uint8_t)j;
+        flows[j].flow_flags = t->m[j] == 'r' ? PARSEC_FLOW_ACCESS_READ : t->m[j] == 'w' ? PARSEC_FLOW_ACCESS_WRITE : PARSEC_FLOW_ACCESS_RW;
+        tc.in[j] = &flows[j]; tc.out[j] = &flows[j];
+        if (t->po[j]) gt->pushout |= (uint16_t)(1 << j);
+        /* the input copy: the last writer's output if it is still attached, else the host copy of the collection */
+        if (cur_dev[d] > 0 && g_data[d]->device_copies[devidx(cur_dev[d] - 1)] != cur_copy[d]) { cur_dev[d] = 0; cur_copy[d] = g_data[d]->device_copies[0]; }
+        task->data[j].data_in = cur_copy[d]; task->data[j].data_out = NULL;
+        task->data[j].source_repo = NULL; task->data[j].source_repo_entry = NULL;
+        gt->flow_info[j].flow = &flows[j]; gt->flow_info[j].flow_span = g_data[d]->span;
+    }
+    /* the consumer holds a reference on its inputs while it runs (PTG: through the repository entry) */
+    parsec_data_copy_t *held[MAXF]; int nheld = 0;
+    for (int j = 0; j < t->nacc; j++)
+        if (cur_dev[t->d[j]] > 0) { held[nheld] = task->data[j].data_in; PARSEC_OBJ_RETAIN(held[nheld]); nheld++; }
+    scan_slots();
+    parsec_execution_stream_t *es = ctx->virtual_processes[0]->execution_streams[0];
+    parsec_hook_return_t rc = parsec_device_kernel_scheduler(&mock[t->place - 1]->super.super, es, gt);
+    (void)rc;
+    scan_slots();
+    for (int k = 0; k < nheld; k++) { parsec_data_copy_t *c = held[k]; PARSEC_OBJ_RELEASE(c); }
+    for (int j = 0; j < t->nacc; j++)
+        if (t->m[j] != 'r' && task->data[j].data_out) {
+            int d = t->d[j]; parsec_data_copy_t *o = task->data[j].data_out;
+            cur_copy[d] = o; cur_dev[d] = (o == g_data[d]->device_copies[0]) ? 0 : t->place;
+        }
+    free(task);
+    return 0;
+}
+static void dbg_state(void) { dump_state(stderr); fprintf(stderr, "\n"); }
 static void run_case(FILE *out) {
     int rc;
-    g_out = out; cur_task = -1; idle_polls = 0;
+    g_out = out; cur_task = -1; idle_polls = 0; batch_start = 0;
     memset(obs_in, 0, sizeof obs_in); memset(obs_dev, 0, sizeof obs_dev); memset((void *)runs, 0, sizeof runs);
     memset(obs_bad, 0, sizeof obs_bad); evlen = 0; evlog[0] = 0; ev_seq = 0;
     memset(slot_owner, 0, sizeof slot_owner);
@@ -490,24 +591,35 @@ static void run_case(FILE *out) {
     g_A = (parsec_data_collection_t *)m;
     parsec_data_collection_set_key(g_A, "A");
 
-    g_tp = parsec_dtd_taskpool_new();
-    parsec_arena_datatype_t *adt = parsec_matrix_adt_new_rect(parsec_datatype_int32_t, 1, 1, 1);
-    parsec_dtd_attach_arena_datatype(ctx, adt, &g_region);
-    parsec_dtd_data_collection_init(g_A);
-    rc = parsec_context_add_taskpool(ctx, g_tp);
-    if (rc < 0) { fprintf(out, "<add_taskpool rc=%d>\n", rc); return; }
-    rc = parsec_context_start(ctx);
-    if (rc < 0) { fprintf(out, "<context_start rc=%d>\n", rc); return; }
-    for (int d = 0; d < C.ndata; d++) g_tile[d] = PARSEC_DTD_TILE_OF_KEY(g_A, g_A->data_key(g_A, d, 0));
+    if (!C.ptg) {
+        g_tp = parsec_dtd_taskpool_new();
+        parsec_arena_datatype_t *adt = parsec_matrix_adt_new_rect(parsec_datatype_int32_t, 1, 1, 1);
+        parsec_dtd_attach_arena_datatype(ctx, adt, &g_region);
+        parsec_dtd_data_collection_init(g_A);
+        rc = parsec_context_add_taskpool(ctx, g_tp);
+        if (rc < 0) { fprintf(out, "<add_taskpool rc=%d>\n", rc); return; }
+        rc = parsec_context_start(ctx);
+        if (rc < 0) { fprintf(out, "<context_start rc=%d>\n", rc); return; }
+        for (int d = 0; d < C.ndata; d++) { g_tile[d] = PARSEC_DTD_TILE_OF_KEY(g_A, g_A->data_key(g_A, d, 0)); g_data[d] = g_tile[d]->data_copy->original; }
+    } else {
+        for (int d = 0; d < C.ndata; d++) {
+            g_data[d] = g_A->data_of_key(g_A, g_A->data_key(g_A, d, 0));
+            cur_copy[d] = g_data[d]->device_copies[0]; cur_dev[d] = 0;
+        }
+    }
     case_active = 1;
 
     for (int i = 0; i < C.ntasks; i++) {
         if (C.seq) { fprintf(out, "#p %d\n", i); fflush(out); }            /* progress mark: the parent knows where a hang happened */
         cur_task = C.seq ? i : -1; idle_polls = 0;
-        insert_one(i);
+        if (C.ptg) { if (ptg_run_task(i) < 0) { fprintf(out, "<ptg mode: device tasks only>\n"); return; } }
+        else insert_one(i);
         if (C.seq || (i + 1) % C.batch == 0) {
-            rc = parsec_taskpool_wait(g_tp);
-            if (rc < 0) { fprintf(out, "<taskpool_wait rc=%d>\n", rc); return; }
+            batch_start = i + 1;
+            if (!C.ptg) {
+                rc = parsec_taskpool_wait(g_tp);
+                if (rc < 0) { fprintf(out, "<taskpool_wait rc=%d>\n", rc); return; }
+            }
             if (C.seq) {
                 static char buf[1 << 15]; FILE *mf = fmemopen(buf, sizeof buf, "w");
                 fprintf(mf, "T%d@%d%s", i, obs_dev[i], evlog); evlen = 0; evlog[0] = 0;
@@ -516,9 +628,11 @@ static void run_case(FILE *out) {
             }
         }
     }
-    parsec_dtd_data_flush_all(g_tp, g_A);
-    rc = parsec_taskpool_wait(g_tp);
-    if (rc < 0) { fprintf(out, "<taskpool_wait rc=%d>\n", rc); return; }
+    if (!C.ptg) {
+        parsec_dtd_data_flush_all(g_tp, g_A);
+        rc = parsec_taskpool_wait(g_tp);
+        if (rc < 0) { fprintf(out, "<taskpool_wait rc=%d>\n", rc); return; }
+    }
     case_active = 0;
 
     fprintf(out, "| in:");
@@ -537,16 +651,18 @@ static void run_case(FILE *out) {
     fprintf(out, "\n");
     fflush(out);
 
-    rc = parsec_context_wait(ctx);
-    for (int i = 0; i < ntc; i++) parsec_dtd_task_class_release(g_tp, tctab[i].tc);
-    ntc = 0;
-    parsec_taskpool_free(g_tp);
-    parsec_dtd_data_collection_fini(g_A);
+    if (!C.ptg) {
+        rc = parsec_context_wait(ctx);
+        for (int i = 0; i < ntc; i++) parsec_dtd_task_class_release(g_tp, tctab[i].tc);
+        ntc = 0;
+        parsec_taskpool_free(g_tp);
+        parsec_dtd_data_collection_fini(g_A);
+    }
     parsec_data_free(m->mat); m->mat = NULL;
     parsec_tiled_matrix_destroy((parsec_tiled_matrix_t *)m);
     free(m);
-    parsec_dtd_free_arena_datatype(ctx, g_region);
-    for (int d = 0; d < MAXD; d++) g_tile[d] = NULL;
+    if (!C.ptg) parsec_dtd_free_arena_datatype(ctx, g_region);
+    for (int d = 0; d < MAXD; d++) { g_tile[d] = NULL; g_data[d] = NULL; }
     for (int g = 0; g < n_mock; g++) parsec_device_memory_release(&mock[g]->super);
 }
 
